@@ -374,6 +374,16 @@ Proof.
   intros s rep (h & G & E). pose proof (grun_inv h [] [] InvC_init G) as H. rewrite E in H. exact H.
 Qed.
 
+(* (I4) + (I1): a node flagged collected has a cached hash, and it is the from-scratch
+   one - invalidate_hash may therefore stop at a node without a cached hash *)
+Lemma collected_has_hash : forall s rep, greach s rep ->
+  forall n x, nth_error s n = Some x -> collected x = true ->
+  exists h, cached x = Some h /\ Fresh s n h.
+Proof.
+  intros s rep GR n x E C. destruct (greach_inv s rep GR) as [[[I0 I4] _] _].
+  destruct (I1 NH s I0 n x E (I4 n x E C)) as (h & Ch & F & _). eauto.
+Qed.
+
 Lemma collect_complete : forall s rep root, greach s rep -> guard NH true false s (OCollect root) ->
   let s' := fst (gstep s rep (OCollect root)) in
   let rep' := snd (gstep s rep (OCollect root)) in
